@@ -117,5 +117,8 @@ def concatenate(fields, target={}, resources=None):
                 yield concatenator(resource_chain, needed_fields, field_mapping)
             else:
                 yield resource
+        if num_concatenated == 0:
+            # nothing was selected: the target, listed last in the descriptor, is an empty resource
+            yield concatenator(iter(()), needed_fields, field_mapping)
 
     return func
